@@ -3,12 +3,13 @@
 # Applies a patch to a scratch worktree of /repo (outside /repo and /verif), runs the property's check
 # against it (VERIF_REPO), removes the worktree.  Exit status = status of the check.
 # MUTANT_SLOT=<n> selects the scratch slot (parallel use needs different slots); the slot's cargo target
-# directory is kept between calls so that only the engine crate is recompiled; MUTANT_CLEAN=1 removes it.
+# directory (under /tmp, never under /repo or /verif) is kept between calls so that only the engine crate is
+# recompiled; MUTANT_CLEAN=1 removes it as well.
 set -u
 patch="$(realpath "$1")"; prop="$2"; tier="${3:-quick}"
 slot="${MUTANT_SLOT:-0}"
 wt="/tmp/verif-wt-slot$slot"
-tdir="/verif/sim/target-$(echo "$wt" | sed 's/[^A-Za-z0-9]/_/g')"
+tdir="/tmp/verif-target-$(echo "$wt" | sed 's/[^A-Za-z0-9]/_/g')"
 git -C /repo worktree remove --force "$wt" 2>/dev/null; rm -rf "$wt"
 git -C /repo worktree prune
 git -C /repo worktree add --detach -q "$wt" HEAD || exit 2
